@@ -642,4 +642,70 @@ theorem intoDownwardFloat_eq_floorMag {c : FC} {F : Fmt} (h : FCok c F) (fp : Ex
   congr 1
   exact floorMag_congr F _ _ _ _ (sDen_pos F _) (sDen_pos F _) (scaled_shift F fp.mant fp.exp s).symm
 
+/-! ## bhcomp's rounding with a sticky flag -/
+
+/-- nearest-even step when the true value lies strictly above `M` (some lower bit was dropped): round `M + ½` -/
+def gSticky (t : Bool) (M s : Nat) : Nat := if t then rne (2 * M + 1) (2 ^ (s + 1)) else rne M (2 ^ s)
+
+theorem sticky_div (M s : Nat) : (2 * M + 1) / 2 ^ (s + 1) = M / 2 ^ s := by
+  rw [Nat.pow_succ, Nat.mul_comm (2 ^ s) 2, ← Nat.div_div_eq_div_mul]
+  congr 1; omega
+
+theorem sticky_mod (M s : Nat) : (2 * M + 1) % 2 ^ (s + 1) = 2 * (M % 2 ^ s) + 1 := by
+  have h1 := Nat.div_add_mod (2 * M + 1) (2 ^ (s + 1))
+  have h2 := Nat.div_add_mod M (2 ^ s)
+  rw [sticky_div] at h1
+  have hp : 2 ^ (s + 1) = 2 * 2 ^ s := by rw [Nat.pow_succ]; ring
+  rw [hp] at h1 ⊢
+  have : 2 * 2 ^ s * (M / 2 ^ s) = 2 * (2 ^ s * (M / 2 ^ s)) := by ring
+  omega
+
+theorem bhRound_true_eq (fp : ExtFloat) (s : Nat) (h1 : 1 ≤ s) (hs : s ≤ 64) (hm : fp.mant < 2 ^ 64) :
+    bhRoundNearestTieEven true fp s = { mant := rne (2 * fp.mant + 1) (2 ^ (s + 1)), exp := fp.exp + s } := by
+  have hP : 0 < 2 ^ s := pow_pos' s
+  have hhalf : 2 * 2 ^ (s - 1) = 2 ^ s := by
+    have : s = (s - 1) + 1 := by omega
+    conv_rhs => rw [this, Nat.pow_succ]
+    ring
+  have hp : 2 ^ (s + 1) = 2 * 2 ^ s := by rw [Nat.pow_succ]; ring
+  have hq : fp.mant / 2 ^ s < 2 ^ 63 := by
+    rw [Nat.div_lt_iff_lt_mul hP]
+    calc fp.mant < 2 ^ 64 := hm
+      _ = 2 ^ 63 * 2 ^ 1 := by norm_num
+      _ ≤ 2 ^ 63 * 2 ^ s := Nat.mul_le_mul_left _ (Nat.pow_le_pow_right (by decide) h1)
+  have hr := Nat.mod_lt fp.mant hP
+  unfold bhRoundNearestTieEven roundNearest tieEven
+  simp only [lowerNMask_eq s hs, lowerNHalfway_eq s h1 hs, overflowingShr_eq fp s hs hm,
+    Nat.and_two_pow_sub_one_eq_mod, Nat.and_one_is_mod, Bool.and_true]
+  unfold rne
+  simp only [sticky_div, sticky_mod]
+  by_cases ha : fp.mant % 2 ^ s < 2 ^ (s - 1)
+  · have h1' : ¬ (fp.mant % 2 ^ s > 2 ^ (s - 1)) := by omega
+    have h2' : (fp.mant % 2 ^ s == 2 ^ (s - 1)) = false := by simp; omega
+    have h3 : 2 * (2 * (fp.mant % 2 ^ s) + 1) < 2 ^ (s + 1) := by omega
+    simp [h1', h2', h3]
+  · have h3 : ¬ (2 * (2 * (fp.mant % 2 ^ s) + 1) < 2 ^ (s + 1)) := by omega
+    have h4 : 2 ^ (s + 1) < 2 * (2 * (fp.mant % 2 ^ s) + 1) := by omega
+    by_cases hb : fp.mant % 2 ^ s = 2 ^ (s - 1)
+    · have h2' : (fp.mant % 2 ^ s == 2 ^ (s - 1)) = true := by simp [hb]
+      simp [h2', h3, h4, u64_of_lt (show fp.mant / 2 ^ s + 1 < 2 ^ 64 by omega)]
+    · have h1' : (fp.mant % 2 ^ s > 2 ^ (s - 1)) := by omega
+      have h2' : (fp.mant % 2 ^ s == 2 ^ (s - 1)) = false := by simp [hb]
+      simp [h1', h2', h3, h4, u64_of_lt (show fp.mant / 2 ^ s + 1 < 2 ^ 64 by omega)]
+
+theorem bhRound_false_eq (fp : ExtFloat) (s : Nat) : bhRoundNearestTieEven false fp s = roundNearestTieEven fp s := by
+  unfold bhRoundNearestTieEven roundNearestTieEven
+  simp
+
+theorem bhRound_algOk (t : Bool) : AlgOk (bhRoundNearestTieEven t) (gSticky t) := by
+  cases t
+  · refine ⟨fun fp s h1 hs hm => ?_, fun M s => ?_, fun M s => ?_⟩
+    · rw [bhRound_false_eq]; exact roundNearestTieEven_eq fp s h1 hs hm
+    · exact rne_ge_div M (2 ^ s)
+    · exact rne_le_div_succ M (2 ^ s)
+  · refine ⟨fun fp s h1 hs hm => ?_, fun M s => ?_, fun M s => ?_⟩
+    · exact bhRound_true_eq fp s h1 hs hm
+    · have := rne_ge_div (2 * M + 1) (2 ^ (s + 1)); rw [sticky_div] at this; exact this
+    · have := rne_le_div_succ (2 * M + 1) (2 ^ (s + 1)); rw [sticky_div] at this; exact this
+
 end SJ.Proofs.LexRound
